@@ -555,8 +555,17 @@ func runC14(c *sim.Ctx) {
 		sh.refS[k] = fmt.Sprintf("v%d", i)
 		sh.keys = append(sh.keys, k)
 	}
-	sh.sm = strmap.NewFromMap(sh.ref)
-	sh.s2s = strmap.NewStr2StrFromMap(sh.refS)
+	// loaded from slices in a fixed order: loading from a Go map would make the collision
+	// chains (and with them the number of statement-level scheduling points inside Get) depend
+	// on Go's random map iteration order
+	var vi []int
+	var vs []string
+	for _, k := range sh.keys {
+		vi = append(vi, sh.ref[k])
+		vs = append(vs, sh.refS[k])
+	}
+	sh.sm = strmap.NewFromSlice(sh.keys, vi)
+	sh.s2s = strmap.NewStr2StrFromSlice(sh.keys, vs)
 
 	kinds := make([]int, ntasks)
 	sameKind := cfg.Chance(1, 3) // many tasks of one kind contend for the same pool
